@@ -262,7 +262,7 @@ func main() {
 		o := r.out
 		agg.Runs += o.Runs
 		agg.NonTrivial += o.NonTrivial
-		agg.SimNanos += o.SimNanos
+		agg.SimSeconds += o.SimSeconds
 		agg.Steps += o.Steps
 		for k, v := range o.Counters {
 			agg.Counters[k] += v
@@ -352,7 +352,7 @@ func main() {
 		"samples":             agg.Samples,
 		"per_scenario_runs":   agg.PerScenario,
 		"scheduler_steps":     agg.Steps,
-		"simulated_seconds":   float64(agg.SimNanos) / 1e9,
+		"simulated_seconds":   agg.SimSeconds,
 		"runs_per_hour":       float64(agg.Runs) / wall * 3600,
 		"counters":            agg.Counters,
 		"faults_fired":        pick(agg.Counters, "fault."),
@@ -373,7 +373,7 @@ func main() {
 		trouble("cannot write evidence: %v", err)
 	}
 	fmt.Printf("%s %s: %d runs (%d non-trivial, %d distinct), %d steps, %.0f simulated s, %.1f s wall, %d violation(s)\n",
-		prop, *tier, agg.Runs, agg.NonTrivial, distinct, agg.Steps, float64(agg.SimNanos)/1e9, wall, violations)
+		prop, *tier, agg.Runs, agg.NonTrivial, distinct, agg.Steps, agg.SimSeconds, wall, violations)
 	if len(troubles) > 0 && exitCode != 0 {
 		fmt.Printf("(%d worker trouble report(s) besides the violation; first: %s)\n", len(troubles), firstLines(troubles[0], 8))
 	}
